@@ -25,7 +25,11 @@ struct Built {
 }
 
 fn build_and_write(plan: &Plan, key: u64) -> Built {
-    realise(plan, key, |c| {
+    build_and_write_probed(plan, key, 0)
+}
+
+fn build_and_write_probed(plan: &Plan, key: u64, probes: u64) -> Built {
+    realise_probed(plan, key, probes, |c| {
         let size = guarded_size(c);
         let n = match &size {
             Some(WRes::Ok(n)) => (*n).min(1 << 20),
@@ -237,9 +241,12 @@ fn run_case(spec: &Spec, tape: &mut Tape, key_canon: u64, key_var: u64) -> Resul
         }
         (_, p) => (canonical, p),
     };
-    let shape = fnv1a(FNV_INIT, shape_of(&variant).as_bytes());
+    // observations of the unfinished builder (size queries, scratch writes) between the calls
+    // of the history are part of "how", not of "what was configured"
+    let probes = if tape.choose(3) == 2 { tape.value() as u64 | ((tape.value() as u64) << 32) } else { 0 };
+    let shape = fnv1a(FNV_INIT, format!("{}{}", shape_of(&variant), if probes != 0 { "+probed" } else { "" }).as_bytes());
     let a = build_and_write(&canonical, key_canon);
-    let b = build_and_write(&variant, key_var);
+    let b = build_and_write_probed(&variant, key_var, probes);
     let mut log = vec![format!("canonical: {canonical:?}"), format!("variant:   {variant:?}"), format!("canonical -> size {:?} write {:?} bytes {}", a.size, a.write, hex(&a.bytes)), format!("variant   -> size {:?} write {:?} bytes {}", b.size, b.write, hex(&b.bytes))];
     log.truncate(6);
     let kind = spec.kind_name();
